@@ -1997,7 +1997,7 @@ def report(ctx, prop, problems, fails_property, fails_corr):
                "; ".join(p[2][:300] for p in corr[:3]) or ctx.extra.get("input_distribution", {}).get("model_eval_error", ""))
     seen = 0
     for case, _, msg in propv[:(3 if ctx.thorough else 2)]:
-        small = shrink(case, fails_property, budget=(30 if ctx.thorough else 14))
+        small = shrink(case, fails_property, budget=(30 if ctx.thorough else 10))
         vs = fails_property(small) or [msg]
         ctx.fail(case_key(prop.lower(), small), vs[0], {"kind": "case", "prop": prop, "case": small, "what": vs[0]}, witness=True)
         seen += 1
